@@ -1289,7 +1289,7 @@ fn compare(ctx: &mut Ctx, s: &StepCtx, check_head: bool) -> bool {
                 match git::run(&s.srv.path, &["for-each-ref", "--format=%(refname)", "--contains", x, "refs/heads"]) {
                     Ok(o) if o.ok && !o.text().trim().is_empty() => {
                         ctx.violation(
-                            "shallow|unshallow-left-reachable-boundary",
+                            &format!("shallow|unshallow-left-reachable-boundary|{}", if s.plan.proto == 2 { "v2" } else { "v0v1" }),
                             "after an unshallow fetch gitoxide's shallow file still lists a commit in the history of a fetched server branch (git's twin does not)",
                             witness(json!({"entry": x, "server_branches_containing_it": o.text().lines().take(5).collect::<Vec<_>>(), "gitoxide_shallow": sa, "git_shallow": sb})),
                         );
